@@ -1491,6 +1491,21 @@ def lower_record_entries(repo):
                     n.elt = ast.copy_location(ast.Tuple(elts=[vals[f] for f in fields], ctx=ast.Load()), c)
                     entry = fields
     if entry is None:
+        # the table built row by row: table.append(R(name=..., field=..., ...))
+        for fi in repo.functions.values():
+            if fi.node.name != 'lookup_pack_unpack_methods':
+                continue
+            for c in [x for x in ast.walk(fi.node) if isinstance(x, ast.Call) and isinstance(x.func, ast.Name) and x.func.id in records]:
+                fields = records[c.func.id]
+                vals = dict(zip(fields, c.args))
+                for k in c.keywords:
+                    if k.arg:
+                        vals[k.arg] = k.value
+                if set(vals) == set(fields) and not any(isinstance(x, ast.Starred) for x in c.args):
+                    _Replace(c, ast.copy_location(ast.Tuple(elts=[vals[f] for f in fields], ctx=ast.Load()), c)).visit(fi.node)
+                    entry = fields
+            ast.fix_missing_locations(fi.node)
+    if entry is None:
         return 0
     count = 0
 
@@ -2399,7 +2414,51 @@ def lower_getters(repo):
     return count
 
 
+def lower_local_method_aliases(repo):
+    """``x = self.m`` where m is a method defined by the class (or a base) and the local x is bound
+    once and only ever called: the calls ``x(...)`` are ``self.m(...)`` and the binding is dropped.
+    (A bound method looked up a few statements earlier is the same bound method.)  This lets a
+    helper that is also kept in a local for a loop be expanded like any other helper"""
+    count = 0
+    for fi in list(repo.functions.values()):
+        if fi.cls is None or not isinstance(fi.node, ast.FunctionDef) or not fi.node.args.args:
+            continue
+        me = fi.node.args.args[0].arg
+        methods = set()
+        for c in repo.mro(fi.cls):
+            methods |= {k for k, v in c.methods.items() if isinstance(v.node, ast.FunctionDef) and not v.node.decorator_list}
+        # attributes that are assigned as data anywhere are not methods for this purpose
+        cands = {}
+        for st in fi.node.body:
+            if isinstance(st, ast.Assign) and len(st.targets) == 1 and isinstance(st.targets[0], ast.Name) and isinstance(st.value, ast.Attribute) \
+                    and isinstance(st.value.value, ast.Name) and st.value.value.id == me and st.value.attr in methods and not st.value.attr.startswith('__'):
+                cands[st.targets[0].id] = st
+        if not cands:
+            continue
+        par = {}
+        for pn in ast.walk(fi.node):
+            for c in ast.iter_child_nodes(pn):
+                par[id(c)] = pn
+        for x, st in list(cands.items()):
+            stores = [n for n in ast.walk(fi.node) if isinstance(n, ast.Name) and n.id == x and isinstance(n.ctx, (ast.Store, ast.Del))]
+            loads = [n for n in ast.walk(fi.node) if isinstance(n, ast.Name) and n.id == x and isinstance(n.ctx, ast.Load)]
+            attr = st.value.attr
+            stored_as_data = any(isinstance(n, ast.Attribute) and n.attr == attr and isinstance(n.ctx, ast.Store) for info in repo.modules.values() for n in ast.walk(info['tree']))
+            if len(stores) != 1 or stored_as_data or not loads or any(not (isinstance(par.get(id(n)), ast.Call) and par[id(n)].func is n) for n in loads):
+                continue
+            if any(isinstance(n, (ast.FunctionDef, ast.Lambda)) and n is not fi.node and any(isinstance(y, ast.Name) and y.id == x for y in ast.walk(n)) for n in ast.walk(fi.node)):
+                continue
+            for n in loads:
+                call = par[id(n)]
+                call.func = ast.copy_location(ast.Attribute(value=ast.Name(id=me, ctx=ast.Load()), attr=attr, ctx=ast.Load()), n)
+            fi.node.body = [b for b in fi.node.body if b is not st]
+            count += 1
+        ast.fix_missing_locations(fi.node)
+    return count
+
+
 def inline_helpers(repo):
+    repo.lowered_local_method_aliases = lower_local_method_aliases(repo)
     repo.lowered_getters = 0
     repo.lowered_compiled_aliases = lower_compiled_aliases(repo)
     repo.lowered_value_objects = lower_value_objects(repo)
